@@ -62,7 +62,7 @@ theorem C20_alive_only_finalizer :
     let aliveOnly : List Wid := (pw 0).filter u
     let c0 : Cfg := ⟨fun _ => {}, fun t =>
       if t = 0 then { script := [.nextIdle 0 (pw 0) true, .releaseAll 0 aliveOnly] } else {}⟩
-    let fin := runSched pw c0 (List.replicate 26 (0, u))
+    let fin := runSched pw c0 (List.replicate 40 (0, u))
     (fin.T 0).script = [] ∧ (fin.T 0).cur = none ∧
     (fin.T 0).results = [.worker (some 1), .unit] ∧ acquiredWorkers pw fin.W 0 = [0] := by
   decide
